@@ -177,3 +177,9 @@ func init() {
 		Rule: "one case = 1..3 vertex tables (several may share a label) and 0..3 link tables in either direction (rows with missing, empty, non-string and dangling link fields), a mapping of tables to id prefixes/labels and link tables to edge types, and a typed traversal from the C01 generator biased to leading hasLabel/id starts; tables are served by the real SimpleTableServicer over DriverPreLoad through the simulated transport with seeded per-message latency, under a seeded schedule and scaled buffers. Judged: refql on the graph materialised from tables+mapping (exact multiset / bound arithmetic), stream closure, refusal of write calls. non-trivial = non-empty reference result; distinct = distinct (tables, mapping, program, configuration, decision-sequence hash)",
 		Assumptions: []string{"edge ids follow the driver's own convention (from-label-to), which the property does not fix; repeated links within one link table (same id) are not generated", "gripper.DriverCache is not in the loop: at this commit it lacks GetFieldLinks, does not implement gripper.Driver and cannot be served by SimpleTableServicer", "the gRPC transport is the in-process simnet"}}
 }
+
+func init() {
+	props["C10"] = &propCfg{Level: "exploration", QuickRuns: 480, QuickS: 70, ThoroughRuns: 60000, ThoroughS: 1800, CrashIsViolation: true,
+		Rule: "kv-ops: one case = 3..27 operations on kvi.KVInterface (Set, Get, HasKey, Delete, DeletePrefix, View scripts of Seek/SeekReverse/Next/Get/prefix scans, Update scripts with reads of own writes and failing callbacks, BulkWrite scripts, clean reopen) over keys from the alphabet {a, b, 0x00, 0xff} with shared prefixes and empty values, executed on each of the four REAL drivers on scratch directories and on a sorted-map model, compared return value by return value and by full content after every step; one driver per case is run twice (determinism). graph-on-drivers: a C03 history on kvgraph over each real driver and over simkv, final observable states compared. non-trivial = at least 2 operations; distinct = distinct operation sequences",
+		Assumptions: []string{"the storage engines are real and not under the scheduler (stated in DESIGN §7 C10): this check is seeded history search with restart as the only injected fault", "iterator Key/Value are compared only while Valid(); error values are not compared, only error/no-error; Next on an invalid iterator and BulkWrite with a failing callback (drivers differ by design: discard vs commit) are not judged"}}
+}
